@@ -1856,7 +1856,10 @@ class ArmV6:
         self.registers.changed_registers = [False] * 16
         self.executed_opcode = opcode
         if self.in_it_block():
+            self.registers.it_state_restored = False
             opcode.execute(self)
-            self.registers.it_advance()
+            if not self.registers.it_state_restored:
+                # an exception return has just installed the interrupted program's IT state: it must not be advanced
+                self.registers.it_advance()
         else:
             opcode.execute(self)
